@@ -7,7 +7,8 @@
                                 multi-item section, see do_load; reads as <id>), C import used by a direct call,
                                 P import used by `mov t,<ref>; call t`, R import used by
                                 `mov t,<ref>; mov r,i64:(t)`  (name = one lower-case letter)
-     ext <name> <k>           MIR_load_external (name, address of object #k), k in 0..9, value 100+k
+     ext <name> <k|N>         MIR_load_external (name, address of object #k), k in 0..9, value 100+k;
+                                N = address NULL (shown as 0)
                                 (names d,e: an int64 cell; other names: a C function)
      redef <0|1>              MIR_set_func_redef_permission
      link <null|interp|gen|lazy> <names|->   MIR_link; resolver knows exactly <names>, value 200+(c-'a')
@@ -222,7 +223,7 @@ static void dump_binds (void) {
       int64_t v;
       void *a = md->imp[j]->addr;
       if (j) printf (",");
-      if (a == NULL) printf ("%c=?", md->imp_name[j]);
+      if (a == NULL) printf (md->imp[j]->ref_def == NULL ? "%c=?" : "%c=0", md->imp_name[j]);
       else if (find_addr (a, &v)) printf ("%c=%ld", md->imp_name[j], (long) v);
       else printf ("%c=!", md->imp_name[j]);
     }
@@ -307,7 +308,10 @@ static void run_history (char **lines, int n) {
     if (strcmp (tok[0], "load") == 0 && nt >= 2) do_load (atoi (tok[1]), nt - 2, tok + 2);
     else if (strcmp (tok[0], "ext") == 0 && nt == 3) {
       int c = tok[1][0], k = atoi (tok[2]) % 10;
-      MIR_load_external (ctx, tok[1], data_name_p (c) ? (void *) &ext_cells[k] : (void *) ext_funcs[k]);
+      MIR_load_external (ctx, tok[1],
+                         tok[2][0] == 'N' ? NULL /* `ext <name> N`: address NULL */
+                         : data_name_p (c) ? (void *) &ext_cells[k]
+                                           : (void *) ext_funcs[k]);
       printf ("ok\n");
     } else if (strcmp (tok[0], "redef") == 0 && nt == 2) {
       MIR_set_func_redef_permission (ctx, atoi (tok[1]));
